@@ -122,7 +122,8 @@ Definition model_hash (content : bytes) : hash_obs :=
   | GPanic => HPanic
   | GErr => HErr
   | GOk None => HNone
-  | GOk (Some t) => match b64_decode t with Some h => (match h with [] => HNone | _ => HSome h end) | None => HNone end
+  | GOk (Some t) => match b64_decode (filter (fun b => negb (is_crlf b)) t) with Some h => HSome h | None => HNone end
+    (* Go's decoder skips CR and LF; an empty hash is still a (stale) hash *)
   end.
 Definition hash_obs_eqb (a b : hash_obs) : bool :=
   match a, b with
